@@ -64,6 +64,9 @@ TRewrite == IsEvent("Rewrite") /\ Idle /\ UNCHANGED vars /\ StartWrite
 
 TFs == IsEvent("fs") /\ FsStep(Line.op)
 TFsErr == IsEvent("fserr") /\ IoError(Line.op)
+\* the mutation that failed although no fault was injected: the
+\* specification must expect a failure there (RealFail at the "wend")
+TFsFail == IsEvent("fsfail") /\ RealFailEnabled /\ Line.op \in NextOps /\ UNCHANGED allvars
 
 TWend ==
     /\ IsEvent("wend")
@@ -76,7 +79,7 @@ TWend ==
 
 TraceNext ==
     \/ Reset \/ TInit \/ TRestart \/ TAdd \/ TRemove \/ TDelta \/ TList
-    \/ TUpdate \/ TReset \/ TRewrite \/ TFs \/ TFsErr \/ TWend
+    \/ TUpdate \/ TReset \/ TRewrite \/ TFs \/ TFsErr \/ TFsFail \/ TWend
 
 TraceSpec == TraceInit /\ [][TraceNext]_<<allvars, l>>
 
@@ -152,7 +155,7 @@ ODeltasContiguousOnDisk == AtWend => DeltasContiguousOnDisk
 ODeltasBoundedOnDisk == AtWend => DeltasBoundedOnDisk
 OInterruptedWriteNeverBlocks == AtWend => InterruptedWriteNeverBlocks
 
-NoPanic11 == l > 1 /\ Prev.ev \notin {"reset", "fs", "fserr", "wend"} => ~Prev.panic
+NoPanic11 == l > 1 /\ Prev.ev \notin {"reset", "fs", "fserr", "fsfail", "wend"} => ~Prev.panic
 
 \* the action properties of C11, on every step but the separator
 NotReset == l <= Len(Rec) /\ Line.ev # "reset"
